@@ -140,7 +140,7 @@ def recompute(case):
         e = explain_yin_parse(msgs, yin)
         if e:
             out.add(e)
-    if law == "yin_relex" and case.get("relex") in ("F50", "F51", "F60", "F61"):
+    if law == "yin_relex" and case.get("relex") in ("F50", "F51", "F54", "F60", "F61"):
         out.add(case["relex"])
     return out
 
@@ -260,7 +260,7 @@ def judge(cx, m, r, d, lex1, lex3):
             if (t1 is None or t3 is None) and "InChar" in (lex1[1:3] + lex3[1:3]) and (b"\r" in y1 or b"\r" in y3):
                 relex = "F50"       # a printed CR inside double quotes does not lex
             elif t1 is not None and t3 is None:
-                relex = "F61" if quoted_sub_in_ext(t1) else None
+                relex = "F54" if nested_ext(t1) else "F61" if quoted_sub_in_ext(t1) else None
             elif t1 is not None:
                 dd = yangstrcomp.tree_diff(strip3(t1), strip3(t3))
                 relex = relex_finding(t1, t3, dd)
@@ -310,12 +310,22 @@ def relex_finding(t1, t3, dd):
             break
         anc.append(tr[i]); tr = tr[i][3]
     if any(b":" in a[0] for a in anc[:-1]) or (anc and b":" in anc[-1][0] and dd[1] in ("count",)):
-        return "F61"
+        return "F54" if nested_ext(anc[:1]) else "F61"
     if anc and anc[-1][0] == b"default" and dd[1] == "count":
         return "F60"
     if dd[1] == "count" and anc and any(k[0] == b"default" for k in anc[-1][3]):
         return "F60"
     return None
+
+
+def nested_ext(tr, inside=False):
+    """an extension instance inside an extension instance (the YIN parser reads it as a generic statement: F54, YIN part)"""
+    for kw, arg, fl, kids in tr:
+        if inside and b":" in kw:
+            return True
+        if nested_ext(kids, inside or b":" in kw):
+            return True
+    return False
 
 
 def quoted_sub_in_ext(tr, inside=False):
